@@ -47,7 +47,7 @@ const SIZE_TABLE: &[(&str, usize, i128)] = &[
 
 const INPUT_BYTES: [u8; 20] = [0xff, 0x80, 0x01, 0x00, 0x61, 0x62, 0x00, 0x7f, 0xfe, 0x10, 0x20, 0x30, 0x40, 0x50, 0x60, 0x70, 0x80, 0x90, 0xa0, 0xff];
 
-const START_STATES: &[&str] = &["fresh", "in0", "in3", "in8", "d2"];
+const START_STATES: &[&str] = &["fresh", "in0", "in3", "in8", "d2", "in0-big"];
 
 // ------------------------------------------------------------------------------------
 // panic capture: hook stores message + location, `g` wraps `guarded`
@@ -204,8 +204,13 @@ fn alphabet(seed: u64) -> Vec<Val> {
         (7, false),
         (8, false),
         (32, false),
+        (63, false),
         (64, false),
+        (65, false),
+        (127, false),
         (128, false),
+        (129, false),
+        (136, false),
         (255, false),
         (256, false),
         (1 << 16, false),
@@ -336,13 +341,16 @@ fn make_start(s: usize) -> Xstate {
     xs.intercept_output(true).expect("intercept_output");
     match s {
         0 => {}
-        1 | 2 | 3 => {
+        1 | 2 | 3 | 5 => {
             xs.set_binary_input(Xbitstr::from(INPUT_BYTES.to_vec())).expect("set_binary_input");
             if s == 2 {
                 xs.eval("3 seek").expect("3 seek");
             }
             if s == 3 {
                 xs.eval("8 seek").expect("8 seek");
+            }
+            if s == 5 {
+                xs.eval("big").expect("big");
             }
         }
         4 => xs.eval("3 2 d2-resize").expect("d2-resize"),
@@ -685,7 +693,7 @@ impl Ctx {
                     continue;
                 }
                 for k in 0..=3usize {
-                    let full_here = k < 3 || (!quick && s != 1 && s != 3);
+                    let full_here = k < 3 || (!quick && s != 1 && s != 3 && s != 5);
                     let mut variants: Vec<&Vec<u16>> = vec![];
                     if full_here {
                         variants.push(&all);
@@ -2012,9 +2020,10 @@ pub fn run(cfg: &Cfg) -> i32 {
         js("in0: 20-byte binary input opened (set_binary_input)"),
         js("in3: the same after `3 seek`"),
         js("in8: the same after `8 seek`"),
+        js("in0-big: the 20-byte input opened, then `big` (big-endian byte order selected)"),
         js("d2: after `3 2 d2-resize` (d2-* words only; those words get a freshly booted interpreter per case because clone shares the host object)"),
     ]));
-    ev.add("argument_tuples", js(if cfg.quick() { "k=0..2 over the full alphabet, k=3 over the core values, in every start state" } else { "k=0..2 over the full alphabet in every start state; k=3 over the full alphabet in start states fresh, in3 and d2, over the core values in in0 and in8" }));
+    ev.add("argument_tuples", js(if cfg.quick() { "k=0..2 over the full alphabet, k=3 over the core values, in every start state" } else { "k=0..2 over the full alphabet in every start state; k=3 over the full alphabet in start states fresh, in3 and d2, over the core values in in0, in8 and in0-big" }));
     ev.add("token_alphabet", J::A(ctx.toks.iter().map(|t| js(t.show.clone())).collect()));
     ev.add("token_sequence_length", ji(ctx.tok_len));
     ev.add("token_drive_modes", J::A(MODES.iter().map(|m| js(*m)).collect()));
